@@ -33,14 +33,18 @@ _built = {}
 
 
 def build_harness(cfg="a"):
-    """(re)build the harness against /repo's current working tree, hook on. cfg: a | b | p (a with payloads that have no drop glue)"""
+    """(re)build the harness against /repo's current working tree, hook on. cfg: a | b | p (a with payloads that have no drop glue) | d (a with debug assertions on)"""
     if cfg in _built:
         return _built[cfg]
     feats = {"a": ["--features", "cfg_a"], "b": ["--no-default-features", "--features", "cfg_b"],
-             "p": ["--features", "cfg_a,plain_payloads"]}[cfg]
+             "p": ["--features", "cfg_a,plain_payloads"], "d": ["--features", "cfg_a"]}[cfg]
     tdir = os.path.join(HARNESS, "target", "cfg_" + cfg)
     t0 = time.time()
-    r = sh(["cargo", "build", "--release", "--offline", "--target-dir", tdir] + feats, cwd=HARNESS, timeout=1200)
+    env = None
+    if cfg == "d":
+        # the crate (and the harness) with debug assertions and overflow checks on, as `cargo build` / `cargo test` build it
+        env = dict(os.environ, CARGO_PROFILE_RELEASE_DEBUG_ASSERTIONS="true", CARGO_PROFILE_RELEASE_OVERFLOW_CHECKS="true")
+    r = sh(["cargo", "build", "--release", "--offline", "--target-dir", tdir] + feats, cwd=HARNESS, timeout=1200, env=env)
     if r.returncode != 0:
         sys.stdout.write(r.stdout[-6000:])
         raise ToolError("harness build failed (configuration %s): the tree under /repo does not compile with "
